@@ -72,6 +72,9 @@
 use std::io;
 
 use std::marker::PhantomData;
+#[cfg(feature = "verif_hooks")]
+use crate::verif_hooks::mpsc;
+#[cfg(not(feature = "verif_hooks"))]
 use std::sync::mpsc;
 
 pub trait Reader {
